@@ -299,9 +299,10 @@ def r08_3(ctx):
                     seen_tail = True
                     idx = strip_cast(tt[0][2])
                     xt = xor_terms(idx)
-                    ok_idx = len(xt) == 2 and any(strip_cast(y)[0] == 'havoc' and strip_cast(y)[1] == (C,) for y in xt) and any(is_item(y) for y in xt)
-                    # low byte of crc: `crc as u8`
-                    ok_low = any(y[0] == 'cast' and y[2] == 'u8' for y in xt) or idx[0] == 'bin' and idx[1] == 'BitAnd'
+                    crc_t = lambda y: strip_cast(unmask(y)[0])[0] == 'havoc' and strip_cast(unmask(y)[0])[1] == (C,)
+                    ok_idx = len(xt) == 2 and any(crc_t(y) for y in xt) and any(is_item(y) and not crc_t(y) for y in xt)
+                    # low byte of crc: `crc as u8`, `(crc ^ b) & 0xFF`, or `(crc & 0xFF) ^ b` with b a zero-extended byte
+                    ok_low = any(y[0] == 'cast' and y[2] == 'u8' for y in xt) or idx[0] == 'bin' and idx[1] == 'BitAnd' or any(crc_t(y) and unmask(y)[1] for y in xt)
                     other = [t for t in terms if t is not tt[0]]
                     ok_sh = len(other) == 1 and other[0][0] == 'bin' and other[0][1] == 'Shr' and head(C)(other[0][2]) and other[0][3] == ('const', 8)
                     ctx.check(R, ok_idx and ok_low and ok_sh, 'tail-step', 'the byte-wise step must be TABLE[(crc ^ b) & 0xFF] ^ (crc >> 8): %s' % fmt(vc)[:140], fn=f)
